@@ -33,7 +33,7 @@ def metaResponse : List (String × String) := [("ClusterID", "_.ClusterID"), ("T
 def metaRequest : List (String × String) := [("TopicNames", "_.Topics")]
 def connPartition : List (String × String) :=
   [("ID", "int(_.PartitionID)"), ("Isr", "makeBrokers(_,_.Isr)"), ("Leader", "makeBrokers(_,_.Leader)[0]"),
-   ("Replicas", "makeBrokers(_,_.Replicas)"), ("Topic", "_.TopicName")]
+   ("Replicas", "makeBrokers(_,_.Replicas)"), ("Topic", "_.TopicName"), ("Error", "makeError(_.PartitionErrorCode,\"\")")]
 def connPartitionV6 : List (String × String) := connPartition ++ [("OfflineReplicas", "makeBrokers(_,_.OfflineReplicas)")]
 
 /-! ### offsetfetch.go / offsetcommit.go / listoffset.go (C19) -/
